@@ -478,6 +478,9 @@ func (s *session) apply(o op) string {
 	case "areset":
 		s.held[o.a].Reset()
 		s.rheld[o.a].new = s.rheld[o.a].old
+		if h := s.rh[o.a]; h != nil {
+			h.bound = false // Reset installs a NEW working record; an open handle still points at the discarded one
+		}
 		s.live = append(s.live, o)
 	case "aput":
 		must(s.held[o.a].PutState())
